@@ -601,6 +601,88 @@ static void op_norm(char **w, int nw)
     hmm_deinit(&h); hmm_context_free(ctx); ckd_free_2d(sseq); ckd_free_3d(tp);
 }
 
+/* cmnr <veclen> <tok>* : the CMN state machine (Model/CmnRepr.lean) on the REAL cmn_init / cmn_live / cmn_set_repr /
+ * cmn_live_update / cmn (batch, varnorm 0) with INTEGER-valued cepstra, so that every float32 the code computes is exact
+ * as long as the exact result is representable; every float is printed as the exact rational it is (lowest terms).
+ *   A x_0..x_{n-1}   one frame through cmn_live            S k v_1..v_k   cmn_set_repr("v_1,...,v_k")
+ *   U                cmn_live_update                        B m frames..   cmn(frames, varnorm = 0, m)
+ * output: c ; nframe | mean.. | sum.. (one group per token)                                                     */
+static void print_rat(double v)
+{
+    int e, neg = v < 0;
+    double m;
+    unsigned long long mi;
+    if (v == 0) { printf("0"); return; }
+    if (!isfinite(v)) { printf(isnan(v) ? "nan" : (v > 0 ? "inf" : "-inf")); return; }
+    m = frexp(fabs(v), &e);                 /* |v| = m * 2^e, 0.5 <= m < 1 */
+    mi = (unsigned long long)ldexp(m, 53); e -= 53;
+    while (!(mi & 1)) { mi >>= 1; e++; }
+    if (e >= 0) {
+        if (e > 62 || (mi >> (62 - e)) != 0) { printf("big:%a", v); return; }
+        printf("%s%llu", neg ? "-" : "", mi << e);
+    } else {
+        if (-e > 62) { printf("tiny:%a", v); return; }
+        printf("%s%llu/%llu", neg ? "-" : "", mi, 1ULL << (-e));
+    }
+}
+
+static void cmnr_state(cmn_t *cm)
+{
+    int i;
+    printf(" ; %d |", (int)cm->nframe);
+    for (i = 0; i < cm->veclen; i++) { printf(" "); print_rat(cm->cmn_mean[i]); }
+    printf(" |");
+    for (i = 0; i < cm->veclen; i++) { printf(" "); print_rat(cm->sum[i]); }
+}
+
+static void op_cmnr(char **w, int nw)
+{
+    int n = nw >= 2 ? (int)L(w[1]) : 0, k, i, j;
+    cmn_t *cm;
+    if (n < 1 || n > 64) { printf("bad-op\n"); return; }
+    for (k = 2; k < nw;) {      /* validate first: nothing is printed for a malformed line */
+        if (!strcmp(w[k], "A")) k += 1 + n;
+        else if (!strcmp(w[k], "U")) k += 1;
+        else if (!strcmp(w[k], "S")) { long c = k + 1 < nw ? L(w[k + 1]) : -1; if (c < 0 || c > 200) { k = nw + 1; break; } k += 2 + (int)c; }
+        else if (!strcmp(w[k], "B")) { long c = k + 1 < nw ? L(w[k + 1]) : -1; if (c < 0 || c > 4096) { k = nw + 1; break; } k += 2 + (int)c * n; }
+        else { k = nw + 1; break; }
+    }
+    if (k != nw) { printf("bad-op\n"); return; }
+    err_set_loglevel(ERR_FATAL);
+    cm = cmn_init(n);
+    printf("c");
+    for (k = 2; k < nw;) {
+        if (!strcmp(w[k], "A")) {
+            mfcc_t *fr = (mfcc_t *)calloc(n, sizeof(mfcc_t)), *rows[1];
+            for (i = 0; i < n; i++) fr[i] = (mfcc_t)L(w[k + 1 + i]);
+            rows[0] = fr;
+            cmn_live(cm, rows, 0, 1);
+            free(fr);
+            k += 1 + n;
+        } else if (!strcmp(w[k], "U")) {
+            cmn_live_update(cm);
+            k += 1;
+        } else if (!strcmp(w[k], "S")) {
+            int c = (int)L(w[k + 1]);
+            char *s = (char *)calloc(1, 32 * (size_t)(c + 1)), *p = s;
+            for (i = 0; i < c; i++) p += sprintf(p, "%s%ld", i ? "," : "", L(w[k + 2 + i]));
+            cmn_set_repr(cm, s);
+            free(s);
+            k += 2 + c;
+        } else {
+            int c = (int)L(w[k + 1]);
+            mfcc_t **rows = (mfcc_t **)ckd_calloc_2d(c > 0 ? c : 1, n, sizeof(mfcc_t));
+            for (i = 0; i < c; i++) for (j = 0; j < n; j++) rows[i][j] = (mfcc_t)L(w[k + 2 + i * n + j]);
+            cmn(cm, rows, 0, c);
+            ckd_free_2d(rows);
+            k += 2 + c * n;
+        }
+        cmnr_state(cm);
+    }
+    printf("\n");
+    cmn_free(cm);
+}
+
 /* arith ops of the search (fsg_search.c): these are single expressions; the harness evaluates the
  * same C expressions on int32 so that the model's Int arithmetic is compared with real int32.   */
 static int main_int(void)
@@ -622,6 +704,7 @@ static int main_int(void)
         else if (!strcmp(W[0], "semif")) op_semif(W, nw);
         else if (!strcmp(W[0], "enter")) op_enter(W, nw);
         else if (!strcmp(W[0], "arun")) op_arun(W, nw);
+        else if (!strcmp(W[0], "cmnr")) op_cmnr(W, nw);
         else if (!strcmp(W[0], "addidx")) { printf("a %d %d\n", g_addidx_max, g_addidx_oob); g_addidx_max = -1; g_addidx_oob = 0; }
         else printf("bad-op\n");
         fflush(stdout);
@@ -685,6 +768,64 @@ static void gen_signal(int kind, long p1, long p2, size_t n, uint64_t seed, doub
     } break;
     default: for (i = 0; i < n; i++) out[i] = 0;
     }
+}
+
+/* ------------------------------------------------------------------------------------------ */
+/* adversarial CEPSTRA (fed through acmod_process_cep / feat_s2mfc2feat_live instead of audio).  Every value has
+ * magnitude <= 1e6 (CEP_HUGE): a crude bound on what the library's own front end can produce from int16 / [-1,1]
+ * audio (|log mel energy| <= 745, <= 130 filters, lifter weight <= 12).  C0 >= 0 unless the pattern says otherwise
+ * (a frame with C0 < 0 is "zero energy" and is skipped by the CMN accumulators).                                    */
+#define CEP_HUGE 1.0e6
+enum { C_VARY, C_CONSTDIM, C_ALLEQUAL, C_ZEROS, C_HUGE, C_HUGECONST, C_DENORM, C_TINYVAR, C_NEGC0, C_SOMENEGC0,
+       C_MIXED, C_RAND, C_CONSTTAIL, C_TWOVAL, C_NPAT };
+static const char *cep_names[] = { "cvary", "cconstdim", "callequal", "czeros", "chuge", "chugeconst", "cdenorm",
+    "ctinyvar", "cnegc0", "csomenegc0", "cmixed", "crand", "cconsttail", "ctwoval" };
+
+static double cep_unit(uint64_t *st) { return ((double)(vf_rand(st) % 2000001) - 1000000.0) / 1000000.0; }
+
+static void gen_cep(int pat, long p1, int nfr, int ceplen, uint64_t seed, mfcc_t **out)
+{
+    uint64_t st = seed * 0x9E3779B97F4A7C15ULL + 12345;
+    int i, j;
+    double consts[64];
+    int dimkind[64];
+    for (j = 0; j < 64; j++) {
+        consts[j] = (j == 0 ? 12.0 : 0.0) + cep_unit(&st) * 5.0;
+        dimkind[j] = (int)(vf_rand(&st) % 6);
+    }
+    for (i = 0; i < nfr; i++)
+        for (j = 0; j < ceplen; j++) {
+            double vary = (j == 0 ? 12.0 : 0.0) + sin(0.7 * i + 1.3 * j + (double)(seed % 7)) * (2.0 / (j + 1)) + cep_unit(&st) * 0.01;
+            double v = vary;
+            switch (pat) {
+            case C_VARY: break;
+            case C_CONSTDIM: if (j == (int)(p1 % ceplen)) v = (j == 0) ? 10.0 : -0.25; break;
+            case C_ALLEQUAL: v = consts[j % 64]; break;
+            case C_ZEROS: v = 0.0; break;
+            case C_HUGE: v = ((vf_rand(&st) & 1) ? -1.0 : 1.0) * CEP_HUGE; if (j == 0) v = CEP_HUGE; break;
+            case C_HUGECONST: v = (j & 1) ? -CEP_HUGE : CEP_HUGE; break;
+            case C_DENORM: v = ((i + j) & 1 ? -1.0 : 1.0) * 1e-42; if (j == 0) v = 1e-42 * (1 + (i % 3)); break;
+            case C_TINYVAR: v = consts[j % 64] * (i == (int)(p1 % (nfr > 0 ? nfr : 1)) ? 1.0 + 1.2e-7 : 1.0); break;
+            case C_NEGC0: if (j == 0) v = -1.0 - (i % 3); break;
+            case C_SOMENEGC0: if (j == 0 && (i % (p1 < 2 ? 2 : (int)p1)) != 0) v = -2.5; break;
+            case C_MIXED:
+                switch (dimkind[j % 64]) {
+                case 0: v = 0.0; break;
+                case 1: v = consts[j % 64]; break;
+                case 2: v = ((vf_rand(&st) & 1) ? -1.0 : 1.0) * CEP_HUGE; break;
+                case 3: v = ((i & 1) ? -1.0 : 1.0) * 1e-42; break;
+                case 4: v = cep_unit(&st) * 30.0; break;
+                default: break;
+                }
+                if (j == 0 && v < 0) v = -v;
+                break;
+            case C_RAND: v = cep_unit(&st) * (j == 0 ? 20.0 : 8.0); if (j == 0) v = fabs(v); break;
+            case C_CONSTTAIL: if (j >= (int)(p1 % ceplen)) v = consts[j % 64]; break;      /* coefficients p1.. constant */
+            case C_TWOVAL: v = ((i / (p1 < 1 ? 1 : (int)p1)) & 1) ? consts[j % 64] : consts[(j + 7) % 64]; if (j == 0) v = fabs(v) + 1; break;
+            default: break;
+            }
+            out[i][j] = (mfcc_t)v;
+        }
 }
 
 /* ------------------------------------------------------------------------------------------ */
@@ -983,6 +1124,92 @@ static int c18_addidx_bound(ptm_mgau_t *pm, int topn, int *out_sen, int *out_exa
     return worst;
 }
 
+/* cmnset <comma-separated values | "-" for the empty string> [info]
+ * The text-import contract of the CMN state, through the public API only (plus the public cmn_t fields for the
+ * consistency of accumulators and means):
+ *   t0 = get(FALSE); rc = decoder_set_cmn(d, text)
+ *   rc != 0 (refused): the state must be unchanged (get(FALSE) == t0)
+ *   rc == 0: with k = min(#values, veclen), expected = the first k values as float32, then zeros:
+ *     get(FALSE) right after the import  == expected   (exactly: dev_after  = 0)
+ *     sum[i] / nframe                     ~ expected   (the accumulators stand for the imported means: dev_sum)
+ *     get(TRUE)  right after the import  ~ expected    (no audio in between: an update must not move anything;
+ *                                                       float32 (v*500)/500 may differ from v by one unit in the last place)
+ *     get(FALSE), get(TRUE) again        == the previous export (dev_again = 0)
+ * "info": the same calls, nothing judged (values outside the admissible range, recorded for information).       */
+static double rel_dev(double got, double want)
+{
+    double a = fabs(got - want);
+    if (!isfinite(got) || !isfinite(want)) return 1e9;
+    if (a == 0) return 0;
+    return a / (fabs(want) > 1e-30 ? fabs(want) : 1e-30);
+}
+
+static int parse_list(const char *s, double *out, int max)
+{
+    int n = 0;
+    while (s && *s && n < max) {
+        char *e;
+        out[n] = (double)(float)strtod(s, &e);      /* the text denotes a float32 (nine significant digits identify it) */
+        if (e == s) break;
+        n++;
+        if (*e != ',') break;
+        s = e + 1;
+    }
+    return n;
+}
+
+static void op_cmnset(decoder_t *d, const char *text, const char *how)
+{
+    cmn_t *cm = d->acmod->fcb->cmn_struct;
+    double in[256], g[256], g2[256], want[256];
+    int nin, veclen, k, i, rc, n1, n2, n3, unchanged = 1, fin = 1;
+    double dev_after = 0, dev_upd = 0, dev_again = 0, dev_sum = 0;
+    char *t0, *t1, *t2, *t3;
+    const char *gp;
+    if (!strcmp(text, "-")) text = "";
+    if (cm == NULL) { printf("cmnp none=1 rc=%d\n", decoder_set_cmn(d, text)); fflush(stdout); return; }
+    veclen = cm->veclen;
+    /* count the values as the library documents the format: comma separated; an empty trailing field is no value */
+    nin = 0;
+    { const char *p = text; while (*p) { const char *q = strchr(p, ','); if (nin < 256) in[nin] = (double)(float)atof(p); nin++; if (!q) break; p = q + 1; if (!*p) break; } }
+    k = nin < veclen ? nin : veclen;
+    for (i = 0; i < veclen && i < 256; i++) want[i] = i < k ? in[i] : 0.0;
+    gp = decoder_get_cmn(d, 0); t0 = strdup(gp ? gp : "(null)");
+    printf("cmnp-begin %s\n", text); fflush(stdout);
+    rc = decoder_set_cmn(d, text);
+    gp = decoder_get_cmn(d, 0); t1 = strdup(gp ? gp : "(null)");
+    if (rc != 0) {
+        unchanged = !strcmp(t0, t1);
+        printf("cmnp none=0 rc=%d nin=%d veclen=%d unchanged=%d how=%s\n", rc, nin, veclen, unchanged, how);
+        fflush(stdout); free(t0); free(t1); return;
+    }
+    n1 = parse_list(t1, g, 256);
+    for (i = 0; i < veclen && i < 256; i++) {
+        double dv = i < n1 ? rel_dev(g[i], want[i]) : 1e9, ds;
+        if (dv > dev_after) dev_after = dv;
+        ds = cm->nframe > 0 ? rel_dev((double)(float)(cm->sum[i] / cm->nframe), want[i]) : 1e9;
+        if (ds > dev_sum) dev_sum = ds;
+        if (!finite_f(cm->cmn_mean[i]) || !finite_f(cm->sum[i])) fin = 0;
+    }
+    gp = decoder_get_cmn(d, 1); t2 = strdup(gp ? gp : "(null)");
+    n2 = parse_list(t2, g2, 256);
+    for (i = 0; i < veclen && i < 256; i++) {
+        double dv = i < n2 ? rel_dev(g2[i], want[i]) : 1e9;
+        if (dv > dev_upd) dev_upd = dv;
+        if (!finite_f(cm->cmn_mean[i]) || !finite_f(cm->sum[i])) fin = 0;
+    }
+    gp = decoder_get_cmn(d, 0); t3 = strdup(gp ? gp : "(null)");
+    if (strcmp(t2, t3)) dev_again = 1;
+    gp = decoder_get_cmn(d, 1);
+    n3 = parse_list(gp, g, 256);
+    for (i = 0; i < veclen && i < 256; i++) { double dv = i < n3 && i < n2 ? rel_dev(g[i], g2[i]) : 1e9; if (dv > dev_again) dev_again = dv; }
+    printf("cmnp none=0 rc=%d nin=%d veclen=%d n_out=%d nframe=%d fin=%d dev_after=%.3g dev_sum=%.3g dev_upd=%.3g dev_again=%.3g how=%s after=%s upd=%s\n",
+           rc, nin, veclen, n1, (int)cm->nframe, fin, dev_after, dev_sum, dev_upd, dev_again, how, t1, t2);
+    fflush(stdout);
+    if (!strcmp(how, "info")) decoder_set_cmn(d, t0);     /* a run for information must not poison the following utterances */
+    free(t0); free(t1); free(t2); free(t3);
+}
+
 static int main_sig(const char *json, const char *speech, const char *lang)
 {
     static char line[4096];
@@ -1053,9 +1280,16 @@ static int main_sig(const char *json, const char *speech, const char *lang)
         const char *hyp; char *c1, *c2; int cmn_fin, cmn_rt, cmn_struct_fin = 1, cmn_set_rc = 0, cmn_bad_update = -1; double cmn_relerr = 0, cmn_denote = 0, mid_err = 0;
         long mid_checks = 0, mid_bad = 0, mid_first = -1, mid_next = 0;
         cmn_t *cm;
+        int iscep = 0; mfcc_t **cepm = NULL;
+        if (nw >= 2 && !strcmp(w[0], "cmnset")) { op_cmnset(d, w[1], nw >= 3 ? w[2] : "check"); continue; }
         if (nw < 10 || (strcmp(w[0], "utt") && strcmp(w[0], "probe"))) { printf("bad-op\n"); fflush(stdout); continue; }
         probe = !strcmp(w[0], "probe");
         isf = !strcmp(w[1], "f32");
+        iscep = !strcmp(w[1], "cep");       /* cepstra instead of audio: kind = cepstral pattern, nsamples = number of FRAMES, chunk = frames per block */
+        if (iscep) {
+            for (kind = 0; kind < C_NPAT; kind++) if (!strcmp(cep_names[kind], w[2])) break;
+            if (kind == C_NPAT || probe) { printf("bad-op\n"); fflush(stdout); continue; }
+        } else
         for (kind = 0; kind < K_NKINDS; kind++) if (!strcmp(kind_names[kind], w[2])) break;
         p1 = L(w[3]); p2 = L(w[4]); n = (size_t)L(w[5]); seed = strtoull(w[6], NULL, 10);
         batch = (int)L(w[7]); chunk = (size_t)L(w[8]); upd = (int)L(w[9]);
@@ -1065,8 +1299,14 @@ static int main_sig(const char *json, const char *speech, const char *lang)
         printf("\n"); fflush(stdout);
 
         sig = (double *)malloc(sizeof(double) * (n + 1));
+        if (iscep) {
+            if (n > 100000) n = 100000;
+            cepm = (mfcc_t **)ckd_calloc_2d(n + 1, feat_cepsize(d->acmod->fcb), sizeof(mfcc_t));
+            gen_cep(kind, p1, (int)n, feat_cepsize(d->acmod->fcb), seed, cepm);
+        } else
         if (kind < K_FDENORM) gen_signal(kind, p1, p2, n, seed, sig);
-        if (isf) {
+        if (iscep) {
+        } else if (isf) {
             f32 = (float32 *)malloc(sizeof(float32) * (n + 1));
             for (i = 0; i < n; i++) {
                 switch (kind) {
@@ -1096,7 +1336,14 @@ static int main_sig(const char *json, const char *speech, const char *lang)
         /* 1. front end alone: every cepstral value finite.  Fed in blocks of 4096 samples with room for
          * every frame of the block (an output-limited fe_process call that leaves more than 32767 samples
          * trips `assert(*inout_nsamps <= MAX_INT16)` in create_overflow_frame — not this property). */
-        {
+        if (iscep) {
+            size_t k2;
+            o.ncep = (long)n;
+            for (k2 = 0; k2 < n; k2++) if (cepm[k2][0] < 0) o.c0neg++;
+            printf("fe ncep=%ld cep_bad=%ld c0neg=%ld cmntype=%d varnorm=%d\n", o.ncep, o.cep_bad, o.c0neg,
+                   (int)d->acmod->fcb->cmn, (int)d->acmod->fcb->varnorm);
+            fflush(stdout);
+        } else {
             size_t pos = 0; int nfr, k, j;
             fe_start(fe2);
             while (pos < n) {
@@ -1149,7 +1396,30 @@ static int main_sig(const char *json, const char *speech, const char *lang)
             ptmr_stop(&d->perf);
             goto next;
         }
-        if (batch) {
+        if (iscep) {
+            /* = decoder_process_* with no_search, but the cepstra go straight to acmod_process_cep (which normalises
+             * them in place and computes the dynamic features) */
+            mfcc_t **ptr = cepm; int left = (int)n, guard = 0;
+            acmod_set_grow(d->acmod, TRUE);
+            if (batch) {
+                if (left > 0) acmod_process_cep(d->acmod, &ptr, &left, TRUE);
+                forward(d, &o);
+            } else while (left > 0 && guard < 8) {
+                int m = left < (int)chunk ? left : (int)chunk, mm = m;
+                mfcc_t **p = ptr;
+                if (acmod_process_cep(d->acmod, &p, &mm, FALSE) < 0) break;
+                if (mm == m) guard++; else guard = 0;
+                ptr += m - mm; left -= m - mm;
+                forward(d, &o);
+                if (d->acmod->fcb->cmn_struct && (long)(n - left) >= mid_next) {
+                    double e = cmn_text_vs_state(decoder_get_cmn(d, 0), d->acmod->fcb->cmn_struct);
+                    mid_checks++;
+                    if (e > mid_err) mid_err = e;
+                    if (e > 2e-5) { mid_bad++; if (mid_first < 0) mid_first = (long)(n - left); }
+                    mid_next = (long)(n - left) + 50;
+                }
+            }
+        } else if (batch) {
             if (isf) decoder_process_float32(d, f32, n, 1, 1); else decoder_process_int16(d, s16, n, 1, 1);
             forward(d, &o);
         } else {
@@ -1229,6 +1499,7 @@ static int main_sig(const char *json, const char *speech, const char *lang)
         free(c1); free(c2);
     next:
         free(sig); free(s16); free(f32);
+        if (cepm) ckd_free_2d(cepm);
     }
     ckd_free_2d(cepbuf);
     fe_free(fe2);
@@ -1338,9 +1609,118 @@ static int main_fe(void)
     return 0;
 }
 
+/* ------------------------------------------------------------------------------------------ */
+/* feature computation alone over MANY configurations x adversarial CEPSTRA: `h_c18 cepf` reads one line per
+ * configuration: <json config> TAB <case> <case> ...   with  case = pattern:nframes:p1:seed:mode:chunk
+ * (mode f = whole utterance in one call (beginutt && endutt), b = blocks of `chunk` frames).  Each line runs in a
+ * forked child (cmn_live E_FATALs on varnorm by design) on ONE feat_t, the cases in order (CMN state carries over).
+ * Drives feat_s2mfc2feat_live exactly as acmod_process_cep does.  Per case: every output value and the CMN state
+ * (mean, sum; the inverse standard deviations cmn_var when batch + varnorm just ran) must be finite.               */
+static void cepf_one(char *line)
+{
+    char *tab = strchr(line, '\t'), *w[256];
+    config_t *config;
+    feat_t *fcb;
+    int nw, ci, ceplen, i, j, k;
+    if (!tab) { printf("cepcfg init=0 why=format\n"); return; }
+    *tab++ = 0;
+    config = config_parse_json(NULL, line);
+    if (!config) { printf("cepcfg init=0 why=config\n"); return; }
+    fcb = feat_init(config);
+    if (!fcb) { printf("cepcfg init=0 why=feat_init\n"); return; }
+    ceplen = feat_cepsize(fcb);
+    printf("cepcfg init=1 cmntype=%d varnorm=%d ceplen=%d nstream=%d dim=%d win=%d\n", (int)fcb->cmn, (int)fcb->varnorm, ceplen,
+           (int)feat_dimension1(fcb), (int)feat_dimension(fcb), (int)feat_window_size(fcb));
+    fflush(stdout);
+    nw = vf_words(tab, w, 256);
+    for (ci = 0; ci < nw; ci++) {
+        char name[32] = "", mode = 'f';
+        long nfr = 0, p1 = 0, chunk = 0; unsigned long long seed = 0;
+        int pat, nout = 0, left, first_fr = -1, first_dim = -1, statebad = 0, begin = 1;
+        long bad = 0, vals = 0;
+        mfcc_t **cep, ***feat, **ptr;
+        if (sscanf(w[ci], "%31[^:]:%ld:%ld:%llu:%c:%ld", name, &nfr, &p1, &seed, &mode, &chunk) != 6 || nfr < 0 || nfr > 20000) {
+            printf("case %s bad-case\n", w[ci]); continue;
+        }
+        for (pat = 0; pat < C_NPAT; pat++) if (!strcmp(cep_names[pat], name)) break;
+        if (pat == C_NPAT) { printf("case %s bad-case\n", w[ci]); continue; }
+        if (chunk < 1) chunk = 1;
+        printf("case-begin %s\n", w[ci]); fflush(stdout);
+        cep = (mfcc_t **)ckd_calloc_2d(nfr + 1, ceplen, sizeof(mfcc_t));
+        gen_cep(pat, p1, (int)nfr, ceplen, seed, cep);
+        feat = feat_array_alloc(fcb, (int)nfr + 2 * feat_window_size(fcb) + 8);
+        ptr = cep; left = (int)nfr;
+        if (mode == 'f') {
+            int32 n = left;
+            nout = feat_s2mfc2feat_live(fcb, ptr, &n, TRUE, TRUE, feat);
+        } else {
+            int guard = 0;
+            while (guard < 8) {
+                int32 n = left < chunk ? left : (int32)chunk, m = n, r;
+                int end = (left <= chunk);
+                r = feat_s2mfc2feat_live(fcb, ptr, &n, begin, end, feat + nout);
+                if (r < 0) break;
+                nout += r; ptr += n; left -= n;
+                if (n > 0) begin = 0;
+                if (n == 0 && m > 0) guard++; else guard = 0;
+                if (end && n == m) break;       /* the whole last block was taken together with the end of the utterance */
+            }
+        }
+        for (i = 0; i < nout; i++)
+            for (j = 0; j < (int)feat_dimension1(fcb); j++)
+                for (k = 0; k < (int)feat_dimension2(fcb, j); k++) {
+                    vals++;
+                    if (!isfinite((double)feat[i][j][k])) { if (!bad) { first_fr = i; first_dim = k; } bad++; }
+                }
+        if (fcb->cmn_struct) {
+            cmn_t *cm = fcb->cmn_struct;
+            for (i = 0; i < cm->veclen; i++) {
+                if (!isfinite((double)cm->cmn_mean[i]) || !isfinite((double)cm->sum[i])) statebad |= 1;
+                if (fcb->varnorm && fcb->cmn == CMN_BATCH && mode == 'f' && nfr > 0 && !isfinite((double)cm->cmn_var[i])) statebad |= 2;
+            }
+            if (cm->repr == NULL || !cmn_text_finite(cm->repr)) statebad |= 4;
+        }
+        printf("case %s out=%d vals=%ld bad=%ld first=%d.%d statebad=%d\n", w[ci], nout, vals, bad, first_fr, first_dim, statebad);
+        fflush(stdout);
+        feat_array_free(feat);
+        ckd_free_2d(cep);
+    }
+    printf("cepcfg done\n");
+    feat_free(fcb);
+    config_free(config);
+}
+
+static int main_cepf(void)
+{
+    static char line[1 << 16];
+    err_set_loglevel(ERR_FATAL);
+    while (fgets(line, sizeof(line), stdin)) {
+        pid_t pid;
+        int status = 0;
+        size_t L0 = strlen(line);
+        while (L0 && (line[L0 - 1] == '\n' || line[L0 - 1] == '\r')) line[--L0] = 0;
+        if (!L0) continue;
+        fflush(stdout);
+        pid = fork();
+        if (pid == 0) {
+            cepf_one(line);
+            fflush(stdout);
+            _exit(0);
+        }
+        waitpid(pid, &status, 0);
+        if (!WIFEXITED(status) || WEXITSTATUS(status) != 0)
+            printf("cepcfg died exited=%d code=%d signal=%d\n", WIFEXITED(status), WIFEXITED(status) ? WEXITSTATUS(status) : -1,
+                   WIFSIGNALED(status) ? WTERMSIG(status) : 0);
+        printf("cepcfg end\n");
+        fflush(stdout);
+    }
+    return 0;
+}
+
 int main(int argc, char **argv)
 {
     if (argc >= 2 && !strcmp(argv[1], "fe")) return main_fe();
+    if (argc >= 2 && !strcmp(argv[1], "cepf")) return main_cepf();
     if (argc >= 2 && !strcmp(argv[1], "int")) return main_int();
     if (argc >= 4 && !strcmp(argv[1], "sig")) return main_sig(argv[2], argv[3], argc >= 5 ? argv[4] : "en");
     fprintf(stderr, "usage: h_c18 int < ops | h_c18 sig '<json>' <speech.raw> < utts\n");
